@@ -71,6 +71,8 @@ func init() {
 				out = append(out, &vexplore.Scenario{Name: t.name + "+receivers-waiting", Mode: "sched", Bound: b, Cfg: vsched.Config{MapOrder: true}, Reset: kit.ResetGlobals, Body: func() { run(t, true) }})
 			}
 		}
+		out = append(out, &vexplore.Scenario{Name: "payload-sequences", Mode: "enum", Reset: kit.ResetGlobals, Body: payloads, NeedCounters: []string{"empty-payload-delivered", "header-like-payload-delivered"}})
+		out = append(out, &vexplore.Scenario{Name: "star-chains-within-hop-limit", Mode: "enum", Reset: kit.ResetGlobals, Body: starChain, NeedCounters: []string{"far-end-reached-at-exact-limit"}})
 		out = append(out, &vexplore.Scenario{Name: "xstar-raw-forward", Mode: "sched", Bound: b, Reset: kit.ResetGlobals, Body: xstarRaw})
 		return out
 	})
@@ -217,6 +219,149 @@ func run(t *topo, recvFirst bool) {
 		}
 	}
 	kit.Observe("%s", obs)
+	kit.Must("Close", func() {
+		for _, s := range socks {
+			_ = s.Close()
+		}
+	})
+}
+
+// payloads: "all payloads" - one member sends a sequence of payloads that includes the empty one,
+// single zero bytes and bodies that look like the patterns' own headers; every other member of a
+// BUS mesh / STAR hub-and-leaves receives exactly that sequence, unchanged.
+func payloads() {
+	kind := kit.ChooseFree(2) // 0 BUS mesh of 3, 1 STAR hub with 2 leaves
+	sender := kit.ChooseFree(3)
+	c := ctor(bus.NewSocket)
+	edges := [][2]int{{1, 0}, {2, 0}, {2, 1}}
+	if kind == 1 {
+		c = star.NewSocket
+		edges = [][2]int{{1, 0}, {2, 0}}
+	}
+	socks := make([]mangos.Socket, 3)
+	for i := range socks {
+		s, err := c()
+		must(err, "NewSocket")
+		socks[i] = s
+	}
+	for i := 0; i < 2; i++ {
+		must(socks[i].Listen(fmt.Sprintf("inproc://c08p-%d", i)), "Listen")
+	}
+	for _, e := range edges {
+		must(socks[e[0]].Dial(fmt.Sprintf("inproc://c08p-%d", e[1])), "Dial")
+	}
+	kit.Quiesce()
+	seq := []string{"", "\x00", "x", "\x00\x00\x00\x00", "\x00\x00\x00\x01", "\x00\x00\x00\x08rest", "\x80\x00\x00\x01", "", string(make([]byte, 300)), "last"}
+	for _, b := range seq {
+		cl := kit.Start("Send", func() (interface{}, error) { return nil, socks[sender].Send([]byte(b)) })
+		kit.Quiesce()
+		if !cl.Done() || cl.Err != nil {
+			kit.Failf("send-stuck", "Send(%q) done=%v %s", b, cl.Done(), kit.ErrName(cl.Err))
+		}
+	}
+	for r := range socks {
+		if r == sender {
+			continue
+		}
+		for i, b := range seq {
+			cl := kit.Start(fmt.Sprintf("Recv:%d", r), func() (interface{}, error) { x, err := socks[r].Recv(); return string(x), err })
+			kit.Quiesce()
+			if !cl.Done() || cl.Err != nil {
+				kit.Failf("payload-missing", "%s: member %d: message %d of the sequence (%d bytes, %q) was not delivered: Recv done=%v %s", []string{"bus", "star"}[kind], r, i, len(b), clipq(b), cl.Done(), kit.ErrName(cl.Err))
+			}
+			if cl.Val.(string) != b {
+				kit.Failf("payload-differs", "%s: member %d: message %d of the sequence: got %q, want %q", []string{"bus", "star"}[kind], r, i, clipq(cl.Val.(string)), clipq(b))
+			}
+			if b == "" {
+				kit.Count("empty-payload-delivered")
+			}
+			if len(b) == 4 {
+				kit.Count("header-like-payload-delivered")
+			}
+		}
+	}
+	cl := kit.Start("Recv:sender", func() (interface{}, error) { x, err := socks[sender].Recv(); return string(x), err })
+	kit.Quiesce()
+	if cl.Done() {
+		kit.Failf("echo-to-sender", "the sender received %q / %s", cl.Val, kit.ErrName(cl.Err))
+	}
+	kit.Observe("%d %d", kind, sender)
+	kit.Must("Close", func() {
+		for _, s := range socks {
+			_ = s.Close()
+		}
+	})
+}
+
+func clipq(s string) string {
+	if len(s) > 24 {
+		return s[:24] + "..."
+	}
+	return s
+}
+
+// starChain: a chain of n STAR members (loop-free).  With the hop limit at its default (8) or set
+// to exactly the number of hops the far end is away, a message from one end reaches every member
+// once; in particular the far end, n-1 hops away, when the limit is n-1.
+func starChain() {
+	type cfg struct{ n, ttl int }
+	cfgs := []cfg{{3, 0}, {3, 2}, {4, 3}, {5, 4}, {9, 0}, {4, 0}}
+	c := cfgs[kit.ChooseFree(len(cfgs))]
+	from := kit.ChooseFree(2) // which end sends
+	socks := make([]mangos.Socket, c.n)
+	for i := range socks {
+		s, err := star.NewSocket()
+		must(err, "NewSocket")
+		if c.ttl > 0 {
+			must(s.SetOption(mangos.OptionTTL, c.ttl), "TTL")
+		}
+		socks[i] = s
+		if i > 0 {
+			must(s.Listen(fmt.Sprintf("inproc://c08c-%d", i)), "Listen")
+		}
+	}
+	for i := 0; i+1 < c.n; i++ {
+		must(socks[i].Dial(fmt.Sprintf("inproc://c08c-%d", i+1)), "Dial")
+	}
+	kit.Quiesce()
+	sender := 0
+	if from == 1 {
+		sender = c.n - 1
+	}
+	cl := kit.Start("Send", func() (interface{}, error) { return nil, socks[sender].Send([]byte("along-the-chain")) })
+	kit.Quiesce()
+	if !cl.Done() || cl.Err != nil {
+		kit.Failf("send-stuck", "Send done=%v %s", cl.Done(), kit.ErrName(cl.Err))
+	}
+	limit := c.ttl
+	if limit == 0 {
+		limit = 8
+	}
+	for r := range socks {
+		if r == sender {
+			continue
+		}
+		dist := r - sender
+		if dist < 0 {
+			dist = -dist
+		}
+		rc := kit.Start(fmt.Sprintf("Recv:%d", r), func() (interface{}, error) { x, err := socks[r].Recv(); return string(x), err })
+		kit.Quiesce()
+		if dist <= limit {
+			if !rc.Done() || rc.Err != nil || rc.Val.(string) != "along-the-chain" {
+				kit.Failf("chain-missing", "chain of %d STAR members, hop limit %d: the member %d hop(s) from the sender did not receive the message (Recv done=%v %s %q)", c.n, limit, dist, rc.Done(), kit.ErrName(rc.Err), rc.Val)
+			}
+			if dist == limit || dist == c.n-1 {
+				kit.Count("far-end-reached-at-exact-limit")
+			}
+			r2 := kit.Start(fmt.Sprintf("Recv2:%d", r), func() (interface{}, error) { x, err := socks[r].Recv(); return string(x), err })
+			kit.Quiesce()
+			if r2.Done() {
+				kit.Failf("duplicate", "chain of %d: the member %d hop(s) away received a second message %q / %s", c.n, dist, r2.Val, kit.ErrName(r2.Err))
+			}
+		}
+	}
+	kit.Observe("%v %d", c, from)
 	kit.Must("Close", func() {
 		for _, s := range socks {
 			_ = s.Close()
